@@ -395,6 +395,7 @@ def work(task):
     classes = {}
     fails = []
     samples = []
+    per_class = {}
     for ci, w1 in enumerate(conts):
         w1 = tuple(w1)
         ref = run_session(w0 + w1)
@@ -421,8 +422,11 @@ def work(task):
                 if len(samples) < 2 and len(w1) >= 1 and not isinstance(f, str):
                     samples.append(dict(session=[cell_code(s) for s in syms], failing_cells=fidx))
                 for x in r:
-                    if len(fails) < 400:
-                        fails.append(dict(x, session=syms, fail_idx=fidx))
+                    ck_ = (x['clause'], x['wclass'])
+                    per_class[ck_] = per_class.get(ck_, 0) + 1
+                    if per_class[ck_] <= 3:         # full witnesses for the first few of each class, counts for the rest
+                        cut = [i for i in fidx if i <= x['at']]       # shortest witness: stop after the violating cell
+                        fails.append(dict(x, session=syms[:x['at'] + 1], fail_idx=cut) if cut else dict(x, session=syms, fail_idx=fidx))
                     else:
                         fails.append(dict(clause=x['clause'], wclass=x['wclass'], at=x['at'], detail='', session=None, fail_idx=None))
     return n, classes, fails, samples
